@@ -359,26 +359,28 @@ def run(case):
         p1 = m1.points
         pm = p1.copy()
         pm[:, 0] = -pm[:, 0] - 3.0  # mirrored copy: every cell of it is wrongly oriented
-        mm = fem.Mesh(np.vstack([p1, pm]), np.vstack([c1, c1 + len(p1)]), m1.cell_type)
-        with warnings.catch_warnings(record=True) as wl:
-            warnings.simplefilter("always")
-            rneg = zoo.region(kind, mm)
-        cnt["trans"] += 1
-        wl = [w for w in wl if issubclass(w.category, UserWarning)]
-        flipped = list(range(len(c1), 2 * len(c1)))
-        if len(wl) != 1:
-            bad("orientation/warning", "number of warnings for a mesh with wrongly oriented cells", len(wl), 1)
-        else:
-            import re
+        # (in three length units: the report must not depend on the absolute size of the negative volumes)
+        for unit, sc in (("", 1.0), ("/mm", 1e-3), ("/um", 1e-6), ("/km", 1e3)):
+            mm = fem.Mesh(np.vstack([p1, pm]) * sc, np.vstack([c1, c1 + len(p1)]), m1.cell_type)
+            with warnings.catch_warnings(record=True) as wl:
+                warnings.simplefilter("always")
+                rneg = zoo.region(kind, mm)
+            cnt["trans"] += 1
+            wl = [w for w in wl if issubclass(w.category, UserWarning)]
+            flipped = list(range(len(c1), 2 * len(c1)))
+            if len(wl) != 1:
+                bad(f"orientation{unit}/warning", "number of warnings for a mesh with wrongly oriented cells", len(wl), 1)
+            else:
+                import re
 
-            msg = str(wl[0].message)
-            named = [int(t) for t in re.findall(r"\d+", msg.split("Try")[0])]
-            if named != flipped:
-                bad("orientation/cells", "cells named by the negative-volume warning", named, flipped)
-        neg = np.where((np.asarray(rneg.dV) < 0).all(0))[0].tolist()
-        if neg != flipped:
-            bad("orientation/dV", "cells with negative dV", neg, flipped)
-        nontrivial.append("orientation")
+                msg = str(wl[0].message)
+                named = [int(t) for t in re.findall(r"\d+", msg.split("Try")[0])]
+                if named != flipped:
+                    bad(f"orientation{unit}/cells", "cells named by the negative-volume warning", named, flipped)
+            neg = np.where((np.asarray(rneg.dV) < 0).all(0))[0].tolist()
+            if neg != flipped:
+                bad(f"orientation{unit}/dV", "cells with negative dV", neg, flipped)
+            nontrivial.append(f"orientation{unit}")
 
     # ---- polynomial reproduction
     exps = repro_space(kind, member)
@@ -456,7 +458,8 @@ def run(case):
             cmp("axisymmetric/radius", "radius at quadrature points", fa.radius, xqa[1][None] if np.ndim(fa.radius) == 3 else xqa[1])
 
     # ---- uniform-grid path
-    if member in AXISPAR and kind in ("quad", "hexahedron", "quad8", "quad9", "hexahedron20", "hexahedron27", "line"):
+    # (the "affine" member is a uniform grid too: every cell is the same parallelepiped, not axis aligned)
+    if (member in AXISPAR or member == "affine") and kind in ("quad", "hexahedron", "quad8", "quad9", "hexahedron20", "hexahedron27", "line"):
         ru = type(region)(region.mesh, **_rk(kind, has_hess=has_hess), uniform=True)
         cnt["trans"] += 1
         cmp("uniform/dV", "uniform region dV (broadcast) vs general", np.broadcast_to(ru.dV, region.dV.shape), region.dV, 1e-13)
